@@ -56,6 +56,14 @@ def run(tier):
             if it % 8 == 5:
                 # one file in which the same pair of children occurs under different rules / parent categories
                 b = trees.twin_batch(rng, 'en') or b
+            if it % 4 == 1:
+                # C&C XML has no bookkeeping attribute called id: a token annotation of that name (a CoNLL id) must survive
+                for sent in b:
+                    ids = ['t%d' % rng.randrange(9) if rng.random() < 0.5 else None for _ in trees.leaves_of(sent[0])]
+                    for t in sent:
+                        for lf, v in zip(trees.leaves_of(t), ids):
+                            if v is not None:
+                                lf['tok']['id'] = v
             base = {'lang': 'en', 'words': [[t['tok']['word'] for t in trees.leaves_of(s[0])] for s in b]}
             real = trees.real_batch(b, rng)
             rf.render_events(PROP, 'xml', 'en', b, real, add, base)
